@@ -1284,15 +1284,11 @@ func (c *Compiler) writeNodeLC(node_ *node, v, fn string, depth int) error {
 	}
 	depths := strconv.Itoa(depth)
 
-	requireLenCheck := func(node *node) bool {
-		return node.typ == typeStruct || node.typ == typeMap || (node.typ == typeSlice && node.typu != "[]byte")
-	}
-
 	if node_.ptr {
 		// Value may be nil on pointer types.
 		c.wl("if ", v, " == nil { return nil }")
 	}
-	if depth == 0 && requireLenCheck(node_) {
+	if depth == 0 && node_.typ == typeStruct {
 		c.wl("if len(path) == 0 { return nil }")
 	}
 
